@@ -294,3 +294,81 @@ func HarnessPanicWS() {
 	verif.Quiesce()
 	verif.Reach("panic-ws-done")
 }
+
+// gated is a parameter type whose decoder can be held: a call carrying the value 100 waits
+// inside the server's argument decoding until the harness opens the gate.
+type gated struct{ V int }
+
+var (
+	gate        chan struct{}
+	gateEntered int
+)
+
+func (g gated) MarshalJSON() ([]byte, error) { return json.Marshal(g.V) }
+func (g *gated) UnmarshalJSON(b []byte) error {
+	if err := json.Unmarshal(b, &g.V); err != nil {
+		return err
+	}
+	if g.V == 100 && gate != nil {
+		gateEntered++
+		<-gate
+	}
+	return nil
+}
+
+type GH struct {
+	H
+	gatedRuns, fineRuns int
+}
+
+func (h *GH) Gated(a gated) (int, error) { h.gatedRuns++; return a.V + 1, nil }
+func (h *GH) Fine2(a int) (int, error)   { h.fineRuns++; return a * 2, nil }
+
+type GC struct {
+	Boom  func(int) (int, error)
+	Gated func(gated) (int, error)
+	Fine2 func(int) (int, error)
+}
+
+// HarnessPanicThenOverlap: "every other call, concurrent or subsequent, behaves as if the
+// panic had not happened" — after 0–2 panicking calls, two healthy calls of the same arity
+// overlap on the server: the first is held between obtaining its argument slots and the end of
+// its argument decoding while the second runs to completion. Both get their own results and
+// each handler runs once with its own argument.
+func HarnessPanicThenOverlap() {
+	h := &GH{H: H{kind: verif.Choice("kind", 10), msg: "m"}}
+	srv := jsonrpc.NewServer()
+	srv.Register("H", h)
+	url, stop := verif.ServeWS(srv)
+	var c GC
+	closer, err := jsonrpc.NewMergeClient(context.Background(), url, "H", []interface{}{&c}, nil)
+	verif.Assert(err == nil, "client-created")
+	x := 0
+	if h.kind == 5 {
+		x = 3
+	}
+	for i := verif.Choice("panics_before", 3); i > 0; i-- {
+		_, perr := c.Boom(x)
+		verif.Assert(perr != nil, "panicking-call-gets-error")
+	}
+	verif.Assert(!verif.Crashed(), "process-survives")
+	gate = make(chan struct{})
+	aRet, aVal := 0, 0
+	var aErr error
+	go func() { aVal, aErr = c.Gated(gated{100}); aRet++ }()
+	verif.Quiesce()
+	verif.Assert(gateEntered == 1 && aRet == 0, "first-call-held-in-argument-decoding")
+	y := verif.Int("y")
+	verif.Assume(y > -1000 && y < 1000)
+	bVal, bErr := c.Fine2(int(y))
+	verif.Assert(bErr == nil && bVal == int(y)*2, "overlapping-call-after-panic-unaffected")
+	close(gate)
+	verif.Quiesce()
+	verif.Assert(aRet == 1 && aErr == nil && aVal == 101, "held-call-after-panic-unaffected")
+	verif.Assert(h.gatedRuns == 1 && h.fineRuns == 1, "each-handler-ran-once")
+	verif.Assert(!verif.Crashed(), "process-survives")
+	closer()
+	stop()
+	verif.Quiesce()
+	verif.Reach("panic-then-overlap-done")
+}
